@@ -123,6 +123,8 @@ impl Path {
 }
 
 impl File {
+    /// File::options() is OpenOptions::new()
+    pub fn options() -> (r: OpenOptions) ensures !r.rd && !r.wr && !r.cr && !r.tr && !r.ap && !r.cn { OpenOptions::new() }
     /// open(O_RDONLY): follows links
     #[verifier::external_body]
     pub fn open(p: &Path, Tracked(w): Tracked<&mut World>) -> (r: std::result::Result<File, io::Error>)
